@@ -34,7 +34,7 @@ pub const CWD: &str = "w";
 struct CaseFs<'a>(&'a Case);
 
 pub fn resolve(path: &str) -> String {
-    if let Some(p) = path.strip_prefix("@ROOT/") {
+    if let Some(p) = path.strip_prefix("/@ROOT/") {
         p.to_string()
     } else {
         let joined = format!("/{CWD}/{path}");
@@ -450,7 +450,7 @@ pub fn gen_case(rng: &mut Rng) -> Case {
     let mut inv = Invocation::default();
     let mut files = vec![FileSpec::dir(CWD), FileSpec::dir("w/d")];
     inv.env = vec![
-        ("HOME".into(), "@ROOT/home".into()),
+        ("HOME".into(), "/@ROOT/home".into()),
         ("FOO".into(), "bar baz".into()),
         ("PATH".into(), "/usr/bin".into()),
     ];
@@ -495,7 +495,7 @@ pub fn gen_case(rng: &mut Rng) -> Case {
             let doc = gen_input(rng, fmt);
             let (arg, path) = match rng.usize(4) {
                 0 => (format!("d/{name}"), format!("w/d/{name}")),
-                1 => (format!("@ROOT/w/{name}"), format!("w/{name}")),
+                1 => (format!("/@ROOT/w/{name}"), format!("w/{name}")),
                 2 => (format!("./{name}"), format!("w/{name}")),
                 _ => (name.clone(), format!("w/{name}")),
             };
